@@ -368,6 +368,8 @@ func c17Gen(r interface{ Intn(int) int }) c17Scenario {
 		v := val
 		if r.Intn(12) == 0 {
 			v = c17Nil // the nil value is a value like any other
+		} else if r.Intn(6) == 0 {
+			v = 7 // a value that recurs: re-setting a key to the value it already holds is a Set like any other
 		}
 		switch {
 		case x < 22:
